@@ -6,7 +6,7 @@ SPEC = dict(
           "interface index; PacketTunnelIOGateway or MiniPacketTunnelIOGateway, zlib level 0/1/6/9, with or without slave MessageIOGateway (plain, zlib-6 with AreOutgoingMessagesIndependent()=true as MessageIOGateway.h documents for such transports, and plain dependent-stream zlib-6 with one source under the identity script only), "
           "MTU from the minimum 25 resp. 17 (also constructor arguments below it) through min+1, min+2, 64, 1500 and random values, Messages of "
           "12 bytes .. 20xMTU incl. packet-capacity boundaries and runs of equal-sized Messages, message ids moved to random bases and across "
-          "2^32, Write() occasionally returning 0) and a family of fault scripts, each run on a fresh receiver: leg 'exh' = exhaustive over a "
+          "2^32, Write() returning 0 at random moments and accepting again, output driven as an event loop does: DoOutput() only while HasBytesToOutput()) and a family of fault scripts, each run on a fresh receiver: leg 'exh' = exhaustive over a "
           "window of <= 6 consecutive packets of the merged sequence (every subset lost, every permutation, one duplicate at every position; "
           "the full product for windows <= 4; the whole sequence when it has <= 6 packets), leg 'sampled' = identity + 8 sampled scripts "
           "(loss p, duplication p, reorder window w, sender interleaving) on sequences of up to ~750 packets.  Oracle: every delivered Message is "
@@ -35,10 +35,10 @@ SPEC = dict(
                        'mini_cases_with_several_chunks_per_packet': 160, 'tunnel_messages_fragmented': 4000,
                        'tunnel_packets_with_several_chunks': 1120, 'tunnel_messages_ending_exactly_at_packet_end': 1120,
                        'messages_sent_after_id_wraparound': 200, 'cases_equal_size_messages': 1200, 'messages_lost_to_faults': 800000,
-                       'messages_delivered_under_faults': 3200000, 'write_holds': 1200},
+                       'messages_delivered_under_faults': 3200000, 'write_holds': 1200, 'held_packets_flushed_via_HasBytesToOutput': 500},
                'sampled': {'fault_scripts': 97500, 'identity_scripts': 26250, 'cases_mtu_min': 450, 'cases_mtu_1500': 375, 'cases_senders_3': 3750,
                            'tunnel_messages_fragmented': 75000, 'messages_sent_after_id_wraparound': 7500, 'mini_packets_deflated': 11250,
                            'mini_messages_fitting_the_mtu_exactly': 4500, 'max_packets_in_a_case': 500, 'messages_delivered_under_faults': 750000,
-                           'messages_lost_to_faults': 450000, 'write_holds': 30000,
+                           'messages_lost_to_faults': 450000, 'write_holds': 30000, 'held_packets_flushed_via_HasBytesToOutput': 4000,
                            'messages_sent_after_id_wraparound_by_setter': 3000, 'mini_packets_sent_after_packet_id_wraparound': 3750}},
 )
